@@ -296,6 +296,13 @@ class FormulaTransformer(m.MatcherDecoratableTransformer):
             return updated_node
         elif self.should_replace(original_node):
             return cst.Attribute(value=cst.Name('self'), attr=updated_node)
+        elif original_node.value == 'self':
+            # 'self' is a parameter or a local name of the formula and
+            # would hide the first parameter of the method
+            raise ValueError(
+                "formula of '%s' cannot be exported: "
+                "'self' is used as a parameter or a local name"
+                % self.topfunc_name.value)
         else:
             return updated_node
 
